@@ -125,20 +125,21 @@ class CallTimeout(Exception):
 
 
 def call_timed(seconds, f, *a, **k):
-    """like call(), with a wall-clock guard (SIGALRM): ('timeout', None) if the call does not return in time"""
+    """like call(), with a CPU-time guard (SIGVTALRM): ('timeout', None) if the call does not return within the given CPU seconds"""
     import signal
 
     def handler(signum, frame):
         if os.environ.get('VERIF_DUMP_TIMEOUT') == '1':
             traceback.print_stack(frame, file=sys.stderr)
         raise CallTimeout()
-    old = signal.signal(signal.SIGALRM, handler)
-    signal.setitimer(signal.ITIMER_REAL, seconds)
+    # CPU time of this process, not wall-clock time: a loaded machine must not turn a slow call into a 'timeout'
+    old = signal.signal(signal.SIGVTALRM, handler)
+    signal.setitimer(signal.ITIMER_VIRTUAL, seconds)
     try:
         try:
             return 'ok', f(*a, **k)
         finally:
-            signal.setitimer(signal.ITIMER_REAL, 0)
+            signal.setitimer(signal.ITIMER_VIRTUAL, 0)
     except CallTimeout:
         return 'timeout', None
     except YastnError as e:
@@ -150,4 +151,4 @@ def call_timed(seconds, f, *a, **k):
         where = [l.strip() for l in tb if 'yastn/' in l][-1:] or ['']
         return 'exc', f"{type(e).__name__}: {e} @ {where[0]}"
     finally:
-        signal.signal(signal.SIGALRM, old)
+        signal.signal(signal.SIGVTALRM, old)
